@@ -22,7 +22,7 @@ PROPS_FILE = "C11.v"
 RUN_MODULE = "RunC11"
 TRANSLATOR_UNITS = []
 RULE = ("exhaustive: depth 2, width 1, one write + one read port (comb / sync / sync transparent), every input word "
-        "(waddr, wdata, wen, raddr, ren) x (same) of two clock edges; every single edge for depth in {0,1,2,3} x width "
+        "(waddr, wdata, wen, raddr, ren) x (same) of two clock edges (thorough: also width 2 with two enable bits, transparent port); every single edge for depth in {0,1,2,3} x width "
         "{1,2} x granularity {None,1} x the three read-port kinds from a non-zero initial memory; "
         "seeded random: shapes unsigned 1/2/4/6/8, signed 1/3/8, StructLayout(u3,s5) and ArrayLayout(u2,4)/(u4,2) rows on raw "
         "bits, depth in {0,1,2,3,4,5,8}, 0-3 write x 0-3 read ports over two domains (posedge/negedge, with reset or "
@@ -43,6 +43,9 @@ MODELLED = ("pysim._PyMemoryState (read/write/commit with the write queue), the 
             "both domains in one delta, commit, comb re-evaluation), data.View wrappers of aggregate rows, and the "
             "$mem*_v2 cell parameters of back.rtlil (textual comparison in `extra`, no RTLIL semantics)")
 ASSUMPTIONS = ["clock domains with synchronous reset or none (async_reset domains re-run the process on rst: finding F7)",
+               "read_hold_spec is stated for edges at which the domain's reset is low: with reset high the simulator loads a "
+               "DISABLED read port's data signal with its init value while the emitted $memrd_v2 (SRST=0) holds "
+               "(finding C11-sim-disabled-read-port-reset; modelled faithfully, C11_read_hold_under_reset_refuted)",
                "port inputs change only between edges (testbench sets inputs, then the clocks, then samples)",
                "at one simultaneous edge no two write ports of different domains write a common bit of one row "
                "(S1: the surviving value depends on the process-set iteration order; hardware: undefined)"]
@@ -237,6 +240,15 @@ def _exhaustive(thorough):
                 for (wa, wd, we, ra, re_) in (l1, l2):
                     evs += _pack_ev(c0, (1, 0), (0, 0), [(wa, wd, we)], [(ra, re_)])
                 out.append(dict(c0, evs=evs))
+    if thorough:                      # two edges, all input words: depth 2, width 2, two enable bits, transparent port
+        c0 = dict(base, shape=["u", 2], depth=2, init=[1, 2], wports=[{"dom": 0, "gran": 1}], rports=[kinds[2][1]], g="exh2w:transp")
+        letters2 = list(itertools.product(range(2), range(4), range(4), range(2), range(2)))
+        for l1 in letters2:
+            for l2 in letters2:
+                evs = []
+                for (wa, wd, we, ra, re_) in (l1, l2):
+                    evs += _pack_ev(c0, (1, 0), (0, 0), [(wa, wd, we)], [(ra, re_)])
+                out.append(dict(c0, evs=evs))
     # one edge from a non-zero memory: depths x widths x granularity x kinds (+ a second, idle, edge to see the hold)
     for name, rp in kinds:
         for depth in (0, 1, 2, 3):
@@ -269,7 +281,7 @@ def gen_cases(tier, seed):
     rng = random.Random(seed)
     thorough = tier == "thorough"
     cases = _exhaustive(thorough) + _ctor_cases()
-    n_rand = 12000 if thorough else 1600
+    n_rand = 25000 if thorough else 1600
     rnd = []
     for i in range(n_rand):
         c = _rand_cfg(rng)
@@ -392,6 +404,10 @@ def _simulate(c):
 
 
 def run_impl(c):
+    if c["k"] == "rtlil":            # replay of an `extra` payload: number of complaints about the $mem*_v2 cells
+        return [len(_check_rtlil(c))]
+    if c["k"] == "probe_rst":        # replay of the reset probe: read data after an edge with rst=1, en=0 (6 = held)
+        return [_reset_probe()]
     if c["k"] == "ctor":
         from amaranth.lib.memory import Memory
         from amaranth.utils import ceil_log2
@@ -653,20 +669,20 @@ def extra(tier, seed, findings):
             st["rtlil_duplicate_transparent_port_masks_wrong"] += 1
             if not dup_seen:
                 dup_seen = True
-                viol.append(_finding(findings, F_DUP, {"property": ID, "kind": "rtlil-cells", "case": dict(c),
-                                                       "complaints": bad[:5], "expected_by_model": [], "observed": []}))
+                viol.append(_finding(findings, F_DUP, {"property": ID, "kind": "rtlil-cells", "case": dict(c, k="rtlil"),
+                                                       "complaints": bad[:5], "expected_by_model": [0], "observed": [len(bad)]}))
         elif bad and n_bad < 3:
             n_bad += 1
-            viol.append({"property": ID, "kind": "rtlil-cells", "case": dict(c), "complaints": bad[:5],
-                         "expected_by_model": [], "observed": []})
+            viol.append({"property": ID, "kind": "rtlil-cells", "case": dict(c, k="rtlil"), "complaints": bad[:5],
+                         "expected_by_model": [0], "observed": [len(bad)]})
     # read data register of a disabled sync read port at an edge with the domain's reset asserted:
     # the simulator loads the signal's init value, $memrd_v2 (SRST tied to 0) holds
     held = _reset_probe()
     st["reset_probe_read_data_after_rst_and_not_en"] = held
     if held != 6:
-        viol.append(_finding(findings, F_RST, {"property": ID, "kind": "read-port-reset", "case": {},
+        viol.append(_finding(findings, F_RST, {"property": ID, "kind": "read-port-reset", "case": {"k": "probe_rst"},
                     "complaints": [f"read data {held} after an edge with rst=1, en=0; 6 was held before (RTLIL: SRST=0, holds)"],
-                    "expected_by_model": [], "observed": []}))
+                    "expected_by_model": [6], "observed": [held]}))
     # cross-domain collisions (S1): one of the two values, nothing else disturbed
     winners = collections.Counter()
     for _ in range(200 if tier == "thorough" else 40):
